@@ -133,7 +133,22 @@ func cmdReplay(args []string) {
 	}
 	sc := loadScenario(args[0])
 	p := getProp(sc.Property)
-	p.Prepare(sc.Seed, "replay")
+	if sc.Prefix != nil {
+		// re-execute the worker share that preceded the scenario, in this fresh process
+		n := p.Prepare(sc.Seed, sc.Prefix.Tier)
+		pst := newStats()
+		for i := 0; i < sc.Prefix.Upto && i < n; i++ {
+			if i%sc.Prefix.NW != sc.Prefix.W {
+				continue
+			}
+			if ps := p.Gen(i); ps != nil {
+				p.Check(ps, pst)
+			}
+		}
+		fmt.Printf("replayed %d preceding scenarios of the same worker process first\n", pst.Scenarios+pst.Evaluations)
+	} else {
+		p.Prepare(sc.Seed, "replay")
+	}
 	st := newStats()
 	vs := p.Check(sc, st)
 	kf := loadKnown()
@@ -228,9 +243,6 @@ func cmdCheck(args []string) {
 		fmt.Printf("  seed %d: %d scenarios, %d executions, %.1f s, %d violation classes\n", s, oc.stats.Scenarios, oc.stats.Evaluations, oc.wall, len(oc.classCount))
 	}
 
-	// determinism recheck on a sample (exit 2 on mismatch, never VIOLATION)
-	det := determinismRecheck(p, *seed, *tier)
-
 	// classify
 	kf := loadKnown()
 	knownMet := map[string]int{}
@@ -270,11 +282,31 @@ func cmdCheck(args []string) {
 		fmt.Printf("%d further violation classes not written out (first 12 are)\n", len(pend)-12)
 		pend = pend[:12]
 	}
+	// determinism recheck on a sample. A mismatch with no violation found cannot be
+	// trusted as "held" and exits 2; with violations found they are reported (the
+	// tree under test, not the harness, is what the selftest shows to be the
+	// nondeterministic party).
+	det, detOK := determinismRecheck(p, *seed, *tier)
+	if !detOK {
+		if len(pend) == 0 {
+			fatalInfra("%s", det)
+		}
+		fmt.Println("note:", det)
+	}
 	for i, pv := range pend {
 		var sc Scenario
 		json.Unmarshal(pv.fv.Scenario, &sc)
 		min := &sc
-		if i < 4 {
+		alone := true
+		if p.Engine() == "rx" || p.Engine() == "pipe" {
+			alone = reproducesAlone(&sc, pv.fv.V.Class)
+		}
+		if !alone {
+			// state left behind by earlier scenarios of the same worker process is
+			// part of what it takes: the replay file names that share
+			sc.Prefix = &PrefixSpec{Tier: pv.fv.Tier, W: pv.fv.W, NW: pv.fv.NW, Upto: pv.fv.Index}
+			pv.fv.V.Detail += " [only after the scenarios executed earlier in the same process; replay re-executes them]"
+		} else if i < 4 {
 			min = minimise(p, &sc, pv.fv.V.Class, pv.fv.V.Signature)
 		}
 		min.Expect = &Expect{Class: pv.fv.V.Class}
@@ -306,7 +338,7 @@ func repoDescribe() string {
 
 // determinismRecheck executes a sample of the batch twice in fresh worker
 // processes at different GOMAXPROCS and compares the complete trace hash.
-func determinismRecheck(p Prop, seed uint64, tier string) string {
+func determinismRecheck(p Prop, seed uint64, tier string) (string, bool) {
 	n := p.Prepare(seed, tier)
 	k := 120
 	if p.Engine() == "hist" || p.Engine() == "conc" {
@@ -340,9 +372,29 @@ func determinismRecheck(p Prop, seed uint64, tier string) string {
 		hashes = append(hashes, r.TraceHash^uint64(r.Stats.Evaluations))
 	}
 	if hashes[0] != hashes[1] {
-		fatalInfra("determinism recheck FAILED for %s: trace hash %x (GOMAXPROCS=1) vs %x (GOMAXPROCS=16)", p.ID(), hashes[0], hashes[1])
+		return fmt.Sprintf("determinism recheck FAILED for %s: trace hash %x (GOMAXPROCS=1) vs %x (GOMAXPROCS=16)", p.ID(), hashes[0], hashes[1]), false
 	}
-	return fmt.Sprintf("sample of ~%d scenarios executed twice in fresh processes (GOMAXPROCS 1 and 16): trace hash %016x both times", k, hashes[0])
+	return fmt.Sprintf("sample of ~%d scenarios executed twice in fresh processes (GOMAXPROCS 1 and 16): trace hash %016x both times", k, hashes[0]), true
+}
+
+// reproducesAlone executes one scenario in a fresh process and reports whether
+// the violation class shows there.
+func reproducesAlone(sc *Scenario, class string) bool {
+	f, err := os.CreateTemp(scratchDir(), "alone-*.json")
+	if err != nil {
+		return true
+	}
+	c := sc.Clone()
+	c.Expect = &Expect{Class: class}
+	f.Write(c.JSON())
+	f.Close()
+	defer os.Remove(f.Name())
+	cmd := exec.Command(selfExe(), "replay", f.Name())
+	err = cmd.Run()
+	if ee, ok := err.(*exec.ExitError); ok {
+		return ee.ExitCode() == 1
+	}
+	return err == nil
 }
 
 func maxInt(a, b int) int {
